@@ -1029,7 +1029,18 @@ def build(sdl, enum_kind=0):
     from py_gql import build_schema
     schema = build_schema(sdl)
     if enum_kind:
-        set_enum_internals(schema, enum_rule(enum_kind))
+        # enums with internal values different from their names, the library's own way: the enum types are given as
+        # `additional_types`, so that SDL DEFAULT values typed with them are coerced to the internal values
+        # (changing the values after the build would leave the names in the defaults: an invalid schema since 7cadcb0)
+        from py_gql.schema import EnumType, EnumValue
+        rule = enum_rule(enum_kind)
+        enums = [EnumType(t.name,
+                          [EnumValue(v.name, rule(t.name, i, v.name), deprecation_reason=v.deprecation_reason,
+                                     description=v.description, node=v.node) for i, v in enumerate(t.values)],
+                          description=t.description, nodes=getattr(t, "nodes", None))
+                 for t in schema.types.values() if isinstance(t, EnumType) and not t.name.startswith("__")]
+        if enums:
+            schema = build_schema(sdl, additional_types=enums)
     holder = Holder()
     install_world(schema, holder)
     return schema, holder, dump_schema(schema)
